@@ -24,20 +24,24 @@ def main():
 
     for name, nb in (('cryptoBlockAsm', 1), ('cryptoBlockAsmX2', 2), ('cryptoBlockAsmX4', 4), ('cryptoBlockAsmX8', 8), ('cryptoBlockAsmX16', 16)):
         m.reset()
+        m.branch_oracle = lambda pc, cond: False     # a data-dependent branch is recorded as an event; execution goes on
         m.run(name, {0: m.add_region('rk', [S8] * 128, False), 8: m.add_region('dst', [0] * (16 * nb)), 16: m.add_region('src', [S8] * (16 * nb), False)})
         nruns += 1
         note(name, m.events, dict(blocks=nb))
     m.reset()
+    m.branch_oracle = lambda pc, cond: False
     m.run('expandKeyAsm', {0: m.add_region('key', [S8] * 16, False), 8: m.add_region('enc', [0] * 128), 16: m.add_region('dec', [0] * 128)})
     note('expandKeyAsm', m.events, {})
     nruns += 1
     for cnt in (1, 4, 8, 9, 13):
         m.reset()
+        m.branch_oracle = lambda pc, cond: False
         m.run('gHashBlocks', {0: m.add_region('H', [S8] * 16, False), 8: m.add_region('tag', [S8] * 16), 16: m.add_region('data', [S8] * (16 * cnt), False), 24: cnt})
         note('gHashBlocks', m.events, dict(count=cnt))
         nruns += 1
     for n in (0, 1, 7, 8, 15, 16, 33):
         m.reset()
+        m.branch_oracle = lambda pc, cond: False
         m.run('copyAsm', {0: m.add_region('dst', [0] * n) if n else 0, 8: m.add_region('src', [S8] * n, False) if n else 0, 16: n})
         note('copyAsm', m.events, dict(n=n))
         nruns += 1
@@ -54,6 +58,7 @@ def main():
     ck.outside.append('data-dependent latency of individual instructions (micro-architecture); lengths above the listed bounds')
     for (nl, pl, al, ts) in tuples:
         m.reset()
+        m.branch_oracle = lambda pc, cond: False
         m.run('sealAsm', seal_args(m, None, [S8] * nl, [S8] * pl, [S8] * al, ts, rk=[S8] * 128))
         nruns += 1
         note('sealAsm', m.events, dict(nonce=nl, pt=pl, aad=al, tag=ts))
